@@ -67,6 +67,13 @@ CLAIMED["C18"] = {
   "technique": "machine-checked proof in Lean 4 (invariant by induction over API histories; unfolding of the modelled resolution order) + model/implementation correspondence check + fingerprint/thread oracles",
 }
 
+CLAIMED["C19"] = {
+  "text": "Lean 4 theorems (Geodesy/Props/C19.lean): for tuples of any dimension — out-of-range reads give NaN, a write is read back and leaves the other elements alone, an out-of-range write fills NaN and never fails, typed accessors agree with element access (nth_out_of_range, nth_setNth_same/other, setNth_out_of_range, accessors_agree, setXy_spec); for the containers and adapters — reading back what was written returns the stored dimensions with height 0 / epoch NaN or the adapter's fixed values, writing back what was read changes nothing (get_set, get_set_adapters, set_get), the specialised xy / set_xy fast paths equal the trait defaults for every container kind incl. nested adapters (fastpath_eq_default_xy by induction over the adapter nesting, fastpath_eq_default_set_xy); dms_to_dd / dm_to_dd are +-(|d| + (m + s/60)/60) with zero degrees positive (dms_to_dd_spec, dm_to_dd_spec, dms_zero_degrees), degree/radian/arc-second conversions are mutually inverse. Tied to /repo by a correspondence run of all eight angular functions on a lattice over [-720, 720] degrees plus carries, |angle| < 1 and every f64 class (<= 1e-12 relative; the model implements an exact fmod), and by oracles on the implementation: container round trips for vectors, arrays, slices of 2D/3D/4D/32-bit tuples and both adapters on every f64 class, a user container using only the trait defaults against the fast paths, element-wise arithmetic, DDDMM.mmm / DDDMMSS.sss round trips, normalisation ranges.",
+  "design_ref": "DESIGN.md section 7, C19",
+  "note": "Partial: the ISO-6709 round trips and the normalisation range/equivalence are decided by correspondence + oracle, not yet by theorems (floor arithmetic); rounding and f32 truncation are outside the real-number reading.",
+  "technique": "machine-checked proof in Lean 4 (lens laws over the modelled containers, induction over adapter nesting) + model/implementation correspondence check + container/angle oracles",
+}
+
 ALL = ["C%02d" % i for i in range(1, 21)]
 
 def main():
